@@ -54,6 +54,7 @@ impl K {
         match self {
             K::Shim(OpKind::Load) | K::Shim(OpKind::Fence) | K::Shim(OpKind::Yield) | K::Shim(OpKind::Sleep) => true,
             K::Shim(OpKind::Cas) | K::Shim(OpKind::MutexTryLock) => !ok,
+            K::Call | K::TaskWait => true,
             _ => false,
         }
     }
@@ -82,7 +83,51 @@ pub struct OpRec {
     pub arg: usize,
     pub val: usize,
     pub ok: bool,
+    pub phase: usize,
 }
+
+#[derive(Clone, Debug)]
+pub struct StepInfo {
+    pub chosen: usize,
+    pub enabled: Vec<usize>,
+    /// thread that ran the previous step, if it could have continued without a free switch
+    pub cont: Option<usize>,
+    /// previous thread when it is spinning on read-only operations (continuing it is a stutter)
+    pub spin: Option<usize>,
+}
+
+pub struct View<'a> {
+    pub step: usize,
+    pub enabled: &'a [usize],
+    pub cont: Option<usize>,
+    pub last: Option<usize>,
+    pub nthreads: usize,
+}
+
+pub trait Source: Send {
+    fn pick(&mut self, v: &View) -> usize;
+}
+
+/// Default continuation policy: keep running the same thread, otherwise round-robin
+pub fn default_pick(v: &View) -> usize {
+    if let Some(c) = v.cont {
+        return c;
+    }
+    match v.last {
+        None => v.enabled[0],
+        Some(l) => *v.enabled.iter().find(|&&t| t > l).unwrap_or(&v.enabled[0]),
+    }
+}
+
+#[derive(Debug, Clone, PartialEq)]
+pub enum Outcome {
+    Done,
+    Deadlock,
+    Livelock,
+    StepLimit,
+}
+
+pub const SPIN_FREE: usize = 16;
 
 pub struct Th {
     pub status: Status,
@@ -92,6 +137,7 @@ pub struct Th {
     pub notified: bool,
     pub in_call: Option<Value>,
     pub call_ops: usize,
+    pub retrying: bool,
 }
 
 pub struct St {
@@ -114,6 +160,21 @@ pub struct St {
     pub alloc_seq: usize,
     pub quarantine_on: bool,
     pub since_progress: usize,
+    /// last value seen at an address (a store of the same value is not progress)
+    pub lastval: HashMap<usize, usize>,
+    pub source: Option<Box<dyn Source>>,
+    pub steps: Vec<StepInfo>,
+    pub step_base: usize,
+    pub last: Option<usize>,
+    pub outcome: Option<Outcome>,
+    pub started: bool,
+    pub livelock: usize,
+    pub max_steps: usize,
+    /// addresses owned by the memory manager (transparent in lockstep replay)
+    pub mm_addrs: HashSet<usize>,
+    pub signal_addr: usize,
+    pub transparent_mm: bool,
+    pub phase: usize,
 }
 
 pub struct Rt {
@@ -147,7 +208,38 @@ impl St {
             alloc_seq: 0,
             quarantine_on: false,
             since_progress: 0,
+            lastval: HashMap::new(),
+            source: None,
+            steps: Vec::new(),
+            step_base: 0,
+            last: None,
+            outcome: None,
+            started: false,
+            livelock: 1500,
+            max_steps: 30000,
+            mm_addrs: HashSet::new(),
+            signal_addr: 0,
+            transparent_mm: false,
+            phase: 0,
         }
+    }
+
+    /// Operations of the memory manager are not scheduling points in lockstep replay
+    pub fn is_transparent(&self, kind: K, addr: usize, arg: usize) -> bool {
+        if !self.transparent_mm {
+            return false;
+        }
+        if self.mm_addrs.contains(&addr) {
+            return true;
+        }
+        if addr != 0 && addr == self.signal_addr {
+            return match kind {
+                K::Shim(OpKind::FetchAnd) => true,
+                K::Shim(OpKind::FetchOr) => arg == 1,
+                _ => false,
+            };
+        }
+        false
     }
 
     pub fn enabled(&self, t: usize) -> bool {
@@ -185,8 +277,26 @@ impl Rt {
     }
 
     /// Called by the controlling thread before spawning the scenario threads
-    pub fn begin_run(&self, nthreads: usize, record_ops: bool, quarantine: bool) {
+    #[allow(clippy::too_many_arguments)]
+    pub fn begin_run(
+        &self,
+        nthreads: usize,
+        record_ops: bool,
+        quarantine: bool,
+        source: Box<dyn Source>,
+        step_base: usize,
+        livelock: usize,
+        max_steps: usize,
+    ) {
         let mut st = self.lock();
+        st.source = Some(source);
+        st.steps.clear();
+        st.step_base = step_base;
+        st.last = None;
+        st.outcome = None;
+        st.started = false;
+        st.livelock = livelock;
+        st.max_steps = max_steps;
         assert!(nthreads <= MAX_THREADS);
         st.active = true;
         st.abort = false;
@@ -199,6 +309,7 @@ impl Rt {
                 notified: false,
                 in_call: None,
                 call_ops: 0,
+                retrying: false,
             })
             .collect();
         st.held.clear();
@@ -211,6 +322,127 @@ impl Rt {
         st.record_ops = record_ops;
         st.quarantine_on = quarantine;
         st.since_progress = 0;
+        st.lastval.clear();
+    }
+
+    /// Passes the baton: chooses the next thread and wakes it (unless it is `me`).
+    /// Sets the outcome and wakes the controller when the run cannot go on.
+    fn schedule_next(&self, st: &mut St, me: Option<usize>) {
+        if st.outcome.is_some() {
+            return;
+        }
+        if st.th.iter().all(|th| th.status == Status::Finished) {
+            st.outcome = Some(Outcome::Done);
+            self.ctl.notify_all();
+            return;
+        }
+        let enabled: Vec<usize> = (0..st.th.len()).filter(|&t| st.enabled(t)).collect();
+        let mut bad = None;
+        if enabled.is_empty() {
+            bad = Some(Outcome::Deadlock);
+        } else if st.since_progress > st.livelock {
+            bad = Some(Outcome::Livelock);
+        } else if st.step >= st.max_steps {
+            bad = Some(Outcome::StepLimit);
+        }
+        if let Some(o) = bad {
+            let stuck: Vec<Value> = st
+                .th
+                .iter()
+                .enumerate()
+                .filter(|(_, th)| th.status != Status::Finished)
+                .map(|(t, th)| {
+                    let mut v = th.in_call.clone().unwrap_or(json!({"t":t,"op":"none","api":"none","h":""}));
+                    if th.retrying && th.call_ops < 400 {
+                        v["op"] = json!(format!("retry_{}", v["op"].as_str().unwrap_or("")));
+                    }
+                    v["pend"] = json!(th.pend.map(|p| p.kind.name()).unwrap_or("none"));
+                    v["enabled"] = json!(enabled.contains(&t));
+                    v
+                })
+                .collect();
+            let why = format!("{:?}", o);
+            st.api.push(json!({"e":"stuck","why":why,"ts":stuck}));
+            st.outcome = Some(o);
+            self.ctl.notify_all();
+            return;
+        }
+        let last = st.last;
+        let mut spin = None;
+        let cont = match last {
+            Some(l) if enabled.contains(&l) => {
+                let th = &st.th[l];
+                let free = th.ro_streak >= SPIN_FREE
+                    || matches!(
+                        th.pend.map(|p| p.kind),
+                        Some(K::Shim(OpKind::Yield)) | Some(K::Shim(OpKind::Sleep))
+                    );
+                if free {
+                    if enabled.len() > 1 {
+                        spin = Some(l);
+                    }
+                    None
+                } else {
+                    Some(l)
+                }
+            }
+            _ => None,
+        };
+        let view = View {
+            step: st.step_base + st.steps.len(),
+            enabled: &enabled,
+            cont,
+            last,
+            nthreads: st.th.len(),
+        };
+        let mut src = st.source.take();
+        let mut c = match src.as_mut() {
+            Some(s) => s.pick(&view),
+            None => default_pick(&view),
+        };
+        if !enabled.contains(&c) {
+            c = default_pick(&view);
+        }
+        st.source = src;
+        st.steps.push(StepInfo { chosen: c, enabled: enabled.clone(), cont, spin });
+        st.step += 1;
+        st.granted = Some(c);
+        st.th[c].status = Status::Running;
+        st.last = Some(c);
+        if Some(c) != me {
+            self.cvs[c].notify_all();
+        }
+    }
+
+    /// Controller: waits for every thread to reach its first scheduling point, starts the run and
+    /// waits for its outcome.
+    pub fn drive(&self) -> Outcome {
+        let mut st = self.lock();
+        loop {
+            if !st.th.iter().any(|th| th.status == Status::NotStarted) {
+                break;
+            }
+            st = match self.ctl.wait(st) {
+                Ok(g) => g,
+                Err(p) => p.into_inner(),
+            };
+        }
+        st.started = true;
+        self.schedule_next(&mut st, None);
+        loop {
+            if let Some(o) = st.outcome.clone() {
+                return o;
+            }
+            st = match self.ctl.wait(st) {
+                Ok(g) => g,
+                Err(p) => p.into_inner(),
+            };
+        }
+    }
+
+    pub fn take_source(&self) -> (Option<Box<dyn Source>>, Vec<StepInfo>) {
+        let mut st = self.lock();
+        (st.source.take(), std::mem::take(&mut st.steps))
     }
 
     /// Frees quarantined blocks and returns the logs
@@ -250,6 +482,9 @@ impl Rt {
         if st.abort || !st.active {
             return;
         }
+        if st.is_transparent(kind, addr, arg) {
+            return;
+        }
         {
             let th = &mut st.th[tid];
             th.status = Status::Pending;
@@ -258,7 +493,11 @@ impl Rt {
         if st.granted == Some(tid) {
             st.granted = None;
         }
-        self.ctl.notify_one();
+        if st.started {
+            self.schedule_next(&mut st, Some(tid));
+        } else {
+            self.ctl.notify_all();
+        }
         loop {
             if st.abort {
                 drop(st);
@@ -284,7 +523,27 @@ impl Rt {
         if st.abort || !st.active {
             return;
         }
-        let ro = kind.read_only(ok);
+        if st.is_transparent(kind, addr, arg) {
+            return;
+        }
+        let mut ro = kind.read_only(ok);
+        if let K::Shim(k) = kind {
+            match k {
+                OpKind::Store => {
+                    if st.lastval.get(&addr) == Some(&val) {
+                        ro = true;
+                    }
+                    st.lastval.insert(addr, val);
+                }
+                OpKind::Load => {
+                    st.lastval.insert(addr, val);
+                }
+                OpKind::Cas | OpKind::FetchAdd | OpKind::FetchSub | OpKind::FetchOr | OpKind::FetchAnd => {
+                    st.lastval.remove(&addr);
+                }
+                _ => {}
+            }
+        }
         {
             let th = &mut st.th[tid];
             th.nops += 1;
@@ -342,7 +601,8 @@ impl Rt {
             }
         }
         if st.record_ops {
-            st.ops.push(OpRec { t: tid, kind, addr, arg, val, ok });
+            let phase = st.phase;
+            st.ops.push(OpRec { t: tid, kind, addr, arg, val, ok, phase });
         }
     }
 
@@ -357,7 +617,11 @@ impl Rt {
         if st.granted == Some(tid) {
             st.granted = None;
         }
-        self.ctl.notify_one();
+        if st.started {
+            self.schedule_next(&mut st, None);
+        } else {
+            self.ctl.notify_all();
+        }
     }
 
     pub fn notify_task(&self, task: usize) {
